@@ -157,6 +157,9 @@ def execute(sc):
     for clause, site, detail, ident in world.violations:
         if clause == 'deadlock' and forced_later:
             V('deadlock_after_forced_stop', 'CheckConvergence.communicate_convergence', detail, root='force_done_skips_status_handshake')
+        elif clause in ('unmatched_send', 'unmatched_recv', 'incomplete_recv', 'collective_incomplete') and forced_later:
+            # the status message sent to a rank that was forced to stop (and skipped the handshake) is never received
+            V('forced_stop_handled_differently', 'CheckConvergence.communicate_convergence', detail, root='force_done_skips_status_handshake')
         else:
             V(clause, site, detail, **ident)
     if outcome == 'step_cap':
